@@ -184,6 +184,21 @@ def rule_r3(ctx: Ctx) -> None:
         o = _build(ctx, "_serializable._composite.StructureType", name="ns.sub.T", fixed_port_id=None, source_file_path=path, has_parent_service=False, **base)
         outcomes[label] = o if isinstance(o, str) else _prop(ctx, o, "source_file_path_to_root")
         ctx.count()
+    # a namespace component may repeat the root's name, and a directory above the root may bear it too: the root is found by
+    # counting levels, not by the first directory with that name
+    repeats = {}
+    for label, nm, path, want_root in (
+        ("nested component named like the root", "ns.sub.ns.T", "/x/ns/sub/ns/T.3.7.dsdl", "/x/ns"),
+        ("root name twice in a row", "ns.ns.T", "/x/ns/ns/T.3.7.dsdl", "/x/ns"),
+        ("directory above the root named like it", "ns.sub.T", "/ns/x/ns/sub/T.3.7.dsdl", "/ns/x/ns"),
+        ("deep mismatch above a nested component named like the root", "ns.sub.ns.T", "/x/ns/other/ns/T.3.7.dsdl", "InvalidNameError"),
+    ):
+        o = _build(ctx, "_serializable._composite.StructureType", name=nm, fixed_port_id=None, source_file_path=path, has_parent_service=False, **base)
+        got_root = o if isinstance(o, str) else _prop(ctx, o, "source_file_path_to_root")
+        ctx.count()
+        if got_root != want_root:
+            repeats[label] = {"name": nm, "path": path, "found": got_root, "expected": want_root}
+    ctx.check(not repeats, "_serializable._composite.CompositeType.__init__", "namespaces whose components repeat the root's name", "source_file_path_to_root is the root namespace directory even when a nested namespace (or a directory above the root) has the root's name", comp_where, repeats)
     ctx.check(outcomes == {"match": "/x/ns", "leaf mismatch": "InvalidNameError", "root mismatch": "InvalidNameError"}, "_serializable._composite.CompositeType.__init__", "walks one directory per namespace component, checking each name: %s" % outcomes, "the root directory is exactly len(namespace) levels above the file and every level's name matches", comp_where)
     # ---- wrappers derive identity from their parts
     dl = _build(ctx, "_serializable._composite.DelimitedType", inner=s, extent=64)
